@@ -308,6 +308,29 @@ func (o *Obligation) script(values bool) string {
 	return f
 }
 
+// smallVariant adds bounds on the Int-sorted inputs (recorded as ;IN comments) to a script.
+func smallVariant(script string) string {
+	k := strings.LastIndex(script, "(check-sat)")
+	if k < 0 {
+		return ""
+	}
+	var extra strings.Builder
+	for _, l := range strings.Split(script[k:], "\n") {
+		if !strings.HasPrefix(l, ";IN ") {
+			continue
+		}
+		f := strings.SplitN(l, " ", 4)
+		if len(f) < 4 || f[2] != "Int" {
+			continue
+		}
+		fmt.Fprintf(&extra, "(assert (and (<= (- 3) %s) (<= %s 3)))\n", f[3], f[3])
+	}
+	if extra.Len() == 0 {
+		return ""
+	}
+	return script[:k] + extra.String() + script[k:]
+}
+
 var valueRe = regexp.MustCompile(`^\(\((.*)\)\)$`)
 
 // solve discharges one obligation with the portfolio.
@@ -406,6 +429,19 @@ func (o *Obligation) solve(tier string, idx int) {
 	}
 	if r.Result == "sat" && len(o.Inputs) > 0 {
 		o.Model = parseValues(r.Out, o.Inputs)
+		// prefer a small counterexample: same query with the integer inputs bounded
+		if small := smallVariant(script); small != "" {
+			f2 := filepath.Join(workDir, fmt.Sprintf("q%05d_small.smt2", idx))
+			os.WriteFile(f2, []byte(small), 0644)
+			m := runSolver(r.Solver, f2, 10)
+			if m.Result == "sat" {
+				if mv := parseValues(m.Out, o.Inputs); len(mv) > 0 {
+					o.Model = mv
+					r.Out = m.Out
+					o.RawOut = m.Out
+				}
+			}
+		}
 	}
 	if len(o.RawOut) > 20000 {
 		o.RawOut = o.RawOut[:20000] + "\n...[truncated]"
